@@ -72,7 +72,7 @@ def alphabet(fns, quick, reduced=False):
                ("set_MSm_pole", 1, 0), ("set_mq2", 2, 2)]
     if reduced:
         setters = setters[:7]
-    ops = [("init_gm2calc", "-1"), ("init_slha", "-2"), ("free_null", "-3")]
+    ops = [("init_gm2calc", "-1"), ("init_slha", "-2"), ("free_null", "-3"), ("init_slha_slow_convergence", "-4")]
     for nm, i, k in setters:
         if nm in fid:
             for v in vals:
@@ -189,7 +189,7 @@ def run(ctx):
 
     # ---- (c) THDM constructor product ------------------------------------------------------------
     cases = []
-    ytypes = [0, 1, 2, 3, 4, 5, 6, 7, -1, 2147483647] if not ctx.quick else [0, 1, 2, 5, 6, 7, -1, 2147483647]
+    ytypes = [0, 1, 2, 3, 4, 5, 6, 7, -1, 2147483647] if not ctx.quick else [0, 1, 2, 3, 4, 5, 6, 7, -1, 2147483647]
     for gauge in (0, 1):
         for yt in ytypes:
             for pset in (0, 1, 2, 3):
